@@ -144,6 +144,7 @@ class Session:
                 return S.saved['flatten'](self_)
             R = S.rec
             st = self_.circuit_structure
+            stim_before = R.stim_flat(st)
             S.depth += 1
             try:
                 res = S.saved['flatten'](self_)
@@ -154,7 +155,8 @@ class Session:
             for comp, home, kids in R.walk(res.circuit_structure):
                 for kdx in kids:
                     links[R.oid(kdx)] = S.clean(R.link(kdx))
-            S.events.append({'ev': 'Flatten', 'c': R.oid(st), 'same_structure': res.circuit_structure is st, 'tree': R.tree(res.circuit_structure), 'links': links})
+            S.events.append({'ev': 'Flatten', 'c': R.oid(st), 'same_structure': res.circuit_structure is st, 'tree': R.tree(res.circuit_structure), 'links': links,
+                             'stim_before': stim_before, 'stim_after': R.stim_flat(res.circuit_structure)})
             return res
         D.__init__ = init
         D.add_operation = add_operation
